@@ -1,7 +1,7 @@
 #!/usr/bin/env python3-vt
 """Developer runner: python3-vt dev.py <sidecar> [unit-substring] [--scope k]"""
 import sys, time
-sys.path.insert(0, "/verif")
+import os; sys.path.insert(0, os.path.dirname(os.path.abspath(__file__)))
 from pyvc import run as R
 from pyvc.source import Repo
 import argparse
